@@ -52,32 +52,45 @@ std::vector<nix::Variant> concrete(const std::string &t, const json &s, long bad
 
 struct S { nix::File f; nix::Section sec; nix::Property p; std::string path, type; long seed; };
 
-json observe(S &s, const json &exp) {
+json observeVia(S &s, nix::Property &P, const json &exp) {
     json o = exp;
-    o["dtype"] = (s.p.dataType() == dtOf(s.type)) ? s.type : "changed";
-    std::vector<nix::Variant> got = s.p.values();
+    o["dtype"] = (P.dataType() == dtOf(s.type)) ? s.type : "changed";
+    std::vector<nix::Variant> got = P.values();
     if (exp["known"].get<bool>()) {
         std::vector<nix::Variant> want = concrete(s.type, exp["vals"], 0, s.seed);
-        bool same = got.size() == want.size() && s.p.valueCount() == want.size();
+        bool same = got.size() == want.size() && P.valueCount() == want.size();
         for (size_t i = 0; same && i < got.size(); i++) same = sameVariant(got[i], want[i]);
-        if (!same) o["vals"] = "differ: count " + std::to_string(got.size()) + "/" + std::to_string(s.p.valueCount()) + " expected " + std::to_string(want.size());
+        if (!same) o["vals"] = "differ: count " + std::to_string(got.size()) + "/" + std::to_string(P.valueCount()) + " expected " + std::to_string(want.size());
     }
-    boost::optional<std::string> u = s.p.unit();
+    boost::optional<std::string> u = P.unit();
     o["unit"] = !u ? 0 : (*u == "mV" ? 1 : *u == "arbitrary" ? 2 : -99);
-    boost::optional<double> c = s.p.uncertainty();
+    boost::optional<double> c = P.uncertainty();
     o["unc"] = !c ? 0 : (*c == 0.25 ? 1 : *c == 1e-300 ? 2 : -99);
-    boost::optional<std::string> d = s.p.definition();
+    boost::optional<std::string> d = P.definition();
     o["def"] = !d ? 0 : (*d == "some definition" ? 1 : -99);
     return o;
 }
 
-std::string doStep(S &s, const json &st) {
+// the handle the client kept since creation and a fresh look-up must both show the state the specification predicts
+json observe(S &s, const json &exp) {
+    json o = observeVia(s, s.p, exp);
+    if (!firstDiff(exp, o).empty()) return o;
+    nix::Property q = s.sec.getProperty("p");
+    json o2 = observeVia(s, q, exp);
+    if (!firstDiff(exp, o2).empty()) o2["via"] = "fresh handle";
+    return o2;
+}
+
+std::string doStep(S &s, const json &st, long k) {
     std::string a = st["a"]; const json &v = st["v"]; long x = v["x"];
-    if (a == "Assign") return outcome([&] { s.p.values(concrete(s.type, v["s"], v["bad"], s.seed)); });
-    if (a == "Clear") return outcome([&] { if (s.seed % 2) s.p.values(nix::none); else s.p.deleteValues(); });
-    if (a == "SetUnit") return outcome([&] { if (x == 0) s.p.unit(nix::none); else s.p.unit(x == 1 ? "mV" : "arbitrary"); });
-    if (a == "SetUnc") return outcome([&] { if (x == 0) s.p.uncertainty(nix::none); else s.p.uncertainty(x == 1 ? 0.25 : 1e-300); });
-    if (a == "SetDef") return outcome([&] { if (x == 0) s.p.definition(nix::none); else s.p.definition(x == 1 ? "some definition" : ""); });
+    // every other call goes through a fresh handle instead of the one kept since creation
+    nix::Property fresh = (k % 2) ? s.sec.getProperty("p") : s.p;
+    nix::Property &P = (k % 2) ? fresh : s.p;
+    if (a == "Assign") return outcome([&] { P.values(concrete(s.type, v["s"], v["bad"], s.seed)); });
+    if (a == "Clear") return outcome([&] { if (s.seed % 2) P.values(nix::none); else P.deleteValues(); });
+    if (a == "SetUnit") return outcome([&] { if (x == 0) P.unit(nix::none); else P.unit(x == 1 ? "mV" : "arbitrary"); });
+    if (a == "SetUnc") return outcome([&] { if (x == 0) P.uncertainty(nix::none); else P.uncertainty(x == 1 ? 0.25 : 1e-300); });
+    if (a == "SetDef") return outcome([&] { if (x == 0) P.definition(nix::none); else P.definition(x == 1 ? "some definition" : ""); });
     if (a == "Reopen") return outcome([&] { s.f.close(); s.f = nix::File::open(s.path, nix::FileMode::ReadWrite); s.sec = s.f.getSection("s"); s.p = s.sec.getProperty("p"); });
     throw std::runtime_error("harness: unknown prop action " + a);
 }
@@ -97,11 +110,12 @@ json handle(Ctx &c, const json &rec) {
     json result = ok();
     for (size_t i = 0; i < all.size(); i++) {
         bool last = i + 1 == all.size();
-        std::string r = doStep(s, all[i]);
+        std::string r = doStep(s, all[i], (long) i);
         if (r != all[i]["res"].get<std::string>()) {
             if (!last) { result = json{{"v", "unjudgeable"}, {"what", "prefix step outcome differs"}, {"step", all[i]}, {"observed", r}}; break; }
             result = mismatch("outcome:" + all[i]["a"].get<std::string>(), all[i]["res"], r); break;
         }
+        if (!last) { try { (void) s.p.values(); (void) s.p.valueCount(); (void) s.p.unit(); (void) s.p.uncertainty(); (void) s.p.definition(); (void) s.p.dataType(); } catch (...) {} }
         if (last) {
             json obs = observe(s, post);
             std::string d = firstDiff(post, obs);
